@@ -697,6 +697,10 @@ def main():
         evb = json.load(open(os.path.join(here, "..", "evidence", "C03b.json")))
     except Exception as e:
         evb = {"error": "no evidence written by checks/C03b.py: %s" % e}
+    try:
+        os.remove(os.path.join(here, "..", "evidence", "C03b.json"))   # not a property id: merged into evidence/C03.json below
+    except OSError:
+        pass
     covb = evb.get("coverage", {})
     rep.cov["frontend_operator_layer"] = {k: v for k, v in covb.items() if k not in ("trusted_base",)}
     rep.cov["obligations"] += covb.get("obligations", 0); rep.cov["discharged"] += covb.get("discharged", 0)
